@@ -133,6 +133,11 @@ def main(argv=None):
     lock = threading.Lock()
 
     def job(meta, variant):
+        # per-variant overrides of the unit's run parameters
+        meta = dict(meta)
+        for k in ('timeout', 'memory_gb', 'bounded', 'unwind', 'solver', 'object_bits', 'min_reach'):
+            if k in variant:
+                meta[k] = variant[k]
         name = meta['name']
         wd = os.path.join(scratch, name + '.' + variant['name'])
         os.makedirs(wd, exist_ok=True)
@@ -184,7 +189,7 @@ def main(argv=None):
 
     jobs = []
     # heavy units first
-    order = sorted(sel, key=lambda u: -int(u.get('timeout', 300)))
+    order = sorted(sel, key=lambda u: -max([int(u.get('timeout', 300))] + [int(v.get('timeout', 0)) for v in u['variants']]))
     with cf.ThreadPoolExecutor(max_workers=CORES) as ex:
         for u in order:
             for v in u['variants']:
